@@ -149,15 +149,9 @@ func extract(f *ast.File, sn int, out map[obsT]bool) (notes []string) {
 		switch d := decl.(type) {
 		case *ast.FuncDecl:
 			o := obsT{K: "func", Key: d.Name.Name, Ord: code(sn, rank, 0, 0)}
-			recv := ""
 			if d.Recv != nil && len(d.Recv.List) > 0 {
 				o.K = "meth"
 				o.Key = recvKey(d) + "." + d.Name.Name
-				fl := d.Recv.List[0]
-				if len(fl.Names) > 0 {
-					recv = fl.Names[0].Name + " "
-				}
-				recv += types.ExprString(fl.Type)
 			}
 			m := 0
 			if d.Type.Params != nil && len(d.Type.Params.List) > 0 && len(d.Type.Params.List[0].Names) > 0 {
@@ -167,7 +161,8 @@ func extract(f *ast.File, sn int, out map[obsT]bool) (notes []string) {
 				// init has no parameter to carry the marker: its signature is its own
 				m = firstIntOrZero(d.Body)
 			}
-			o.Sig = fmt.Sprintf("(%s)|%v|x%d", recv, d.Type.TypeParams != nil, m)
+			o.Sig = fmt.Sprintf("(%s)[%s](%s)(%s)#%d", fieldsText(d.Recv, false), fieldsText(d.Type.TypeParams, false),
+				fieldsText(d.Type.Params, true), fieldsText(d.Type.Results, false), m)
 			if d.Body != nil {
 				o.Body = firstInt(d.Body)
 			}
@@ -287,6 +282,36 @@ func extract(f *ast.File, sn int, out map[obsT]bool) (notes []string) {
 		}
 	}
 	return notes
+}
+
+// fieldsText is the canonical text of a field list (receiver, type parameters,
+// parameters, results): "name type, name type"; with marker set the digits of
+// the first name (the provenance marker) are left out.
+func fieldsText(fl *ast.FieldList, marker bool) string {
+	if fl == nil {
+		return ""
+	}
+	var parts []string
+	for i, f := range fl.List {
+		if f == nil {
+			parts = append(parts, "<nil>")
+			continue
+		}
+		var names []string
+		for j, n := range f.Names {
+			nm := n.Name
+			if marker && i == 0 && j == 0 {
+				nm = strings.TrimRight(nm, "0123456789")
+			}
+			names = append(names, nm)
+		}
+		t := types.ExprString(f.Type)
+		if len(names) > 0 {
+			t = strings.Join(names, ", ") + " " + t
+		}
+		parts = append(parts, t)
+	}
+	return strings.Join(parts, ", ")
 }
 
 func firstIntOrZero(b *ast.BlockStmt) int {
